@@ -88,10 +88,8 @@ def campaign(tier, seed):
         with open(cases, "a") as f:
             f.write(open(rnd).read())
         trace = st.path("trace.ndjson")
-        rc, out, _ = sh([BIN, "lower", "--cases", cases, "--out", trace, "--reps", "2"], timeout=3000)
-        if rc != 0:
-            raise ToolError("harness failed: " + out[-2000:])
-        hstat = json.loads(out.strip().splitlines()[-1])
+        hstat, aborts = run_harness(lambda c, t, tag: [[BIN, "lower", "--cases", c, "--out", t, "--reps", "2"]],
+                                    cases, trace, chunk=8000, par=6)
         tv_out = st.path("tv.out")
         tv = run_tlc_trace("LowerTrace", os.path.join(SPEC, "LowerTrace.cfg"), trace, tv_out, workers=3,
                            chunk=12000, par=5, timeout=6000)
@@ -104,6 +102,7 @@ def campaign(tier, seed):
             if key not in seen:
                 seen.add(key)
                 recs.append(r)
+        recs += aborts
         os.remove(tv_out)
         samples = []
         with open(cases) as f:
